@@ -323,6 +323,76 @@ def r07_8(chk, P):
     return n
 
 
+def r07_12(chk, P):
+    chk.rule('R07.12', 'a packet advances the position by a quarter of the previous block plus a quarter of its own (Vorbis I: two '
+             'consecutive blocks overlap by half of each): in vorbisfile.c every accumulation (X += E, X = X + E) whose increment '
+             'reads a local assigned from vorbis_packet_blocksize is, as a linear form with rational coefficients, '
+             '1/4*this + 1/4*last, where `last` is the local that is elsewhere assigned from `this`.  All sites that count '
+             'samples from block sizes (initial offset of a link, raw seek, sample-accurate seek) must agree with the decoder')
+    from fractions import Fraction
+    from rules.c19 import _linform
+    n = 0
+    for F in P.functions():
+        if not F.file.endswith('vorbisfile.c'):
+            continue
+        bs = set()
+        for e in F.pos:
+            nd = F.ex[e]
+            rhs, lhs = None, None
+            if nd['k'] == 'assign' and nd['op'] == '=':
+                lhs, rhs = F.ex[F.strip_casts(nd['c'][0])], F.ex[F.strip_casts(nd['c'][1])]
+                if lhs['k'] == 'ref' and rhs['k'] == 'call' and rhs['callee'].get('d') == 'vorbis_packet_blocksize':
+                    bs.add(lhs['decl'].get('id'))
+            elif nd['k'] == 'decl':
+                for v in nd['vars']:
+                    if v.get('init') is not None:
+                        r = F.ex[F.strip_casts(v['init'])]
+                        if r['k'] == 'call' and r['callee'].get('d') == 'vorbis_packet_blocksize':
+                            bs.add(v['id'])
+        if not bs:
+            continue
+        # `last` variables: assigned from a block-size variable
+        last = {}
+        for e in F.nodes('assign'):
+            nd = F.ex[e]
+            l, r = F.ex[F.strip_casts(nd['c'][0])], F.ex[F.strip_casts(nd['c'][1])]
+            if nd['op'] == '=' and l['k'] == 'ref' and r['k'] == 'ref' and r['decl'].get('id') in bs:
+                last[l['decl'].get('id')] = r['decl'].get('id')
+        names = {vid: F.vars.get(vid, {}).get('name') for vid in set(bs) | set(last)}
+        for e in sorted(F.nodes('assign'), key=lambda x: F.ex[x].get('loc') or [0, 0]):
+            nd = F.ex[e]
+            inc = None
+            if nd['op'] == '+=':
+                inc = nd['c'][1]
+            elif nd['op'] == '=':
+                r = F.ex[F.strip_casts(nd['c'][1])]
+                if r['k'] == 'bin' and r['op'] == '+':
+                    lt = F.s(F.strip_casts(nd['c'][0]))
+                    if F.s(F.strip_casts(r['c'][0])) == lt:
+                        inc = r['c'][1]
+                    elif F.s(F.strip_casts(r['c'][1])) == lt:
+                        inc = r['c'][0]
+            if inc is None:
+                continue
+            if not any(F.ex[q]['k'] == 'ref' and F.ex[q]['decl'].get('id') in bs for q in F.walk(inc)):
+                continue
+            lf = _linform(F, inc, {})
+            ok = False
+            show = F.s(inc)
+            if lf is not None:
+                terms = {k_: v for k_, v in lf.items() if v != 0}
+                this_n = [names[v] for v in bs]
+                ok = len(terms) == 2 and all(v == Fraction(1, 4) for v in terms.values()) and \
+                    any(k_ in this_n for k_ in terms) and any(k_ in [names[l_] for l_ in last] for k_ in terms)
+                show = ' + '.join(f'{v}*{k_}' for k_, v in sorted(terms.items(), key=str))
+            n += 1
+            chk.ob('R07.12', F.name, f'packet-advance-is-quarter-sum@{F.loc(e)}', ok, F.where(e),
+                   f'`{F.s(e)[:60]}` = {show}' if ok else
+                   f'`{F.s(e)[:70]}`: the increment is {show}, not last/4 + this/4: across a block-size switch the count differs from the '
+                   'samples the decoder delivers, and the position reported after the seek is off by (long-short)/4')
+    return n
+
+
 def run(chk, P):
     E = getattr(P, '_effects', None) or k3.Effects(P)
     P._effects = E
@@ -338,6 +408,8 @@ def run(chk, P):
     chk.floor('R07.7', 1)
     r07_8(chk, P)
     chk.floor('R07.8', 2)
+    r07_12(chk, P)
+    chk.floor('R07.12', 2)
     chk.rule('R07.9', 'the data offsets the seeks start from are the links\' first audio pages: every value stored into vf->dataoffsets[] '
              'that derives from a read of the stream position vf->offset sees the header fetch of that link as the last writer of '
              'the position, not a later page fetch (the first-page special case of ov_pcm_seek_page compares the bisection result '
